@@ -176,6 +176,19 @@ add(
     "DESIGN.md section 4, C16",
 )
 
+add(
+    "C03", "exploration",
+    "property-based testing (Hypothesis): existential aligned-slice validity predicate per output record + metamorphic "
+    "relations between --action values + exact interval arithmetic at API level",
+    "Every output record of generated single/paired FASTA/FASTQ runs with random modifying options is matched to its "
+    "input by id and must be an aligned slice (sequence and qualities for the same interval; reverse complement / "
+    "mate when --revcomp chose so; zero-capping only below the base; mask/lowercase only as allowed). The same command "
+    "is run with --action=X, trim, none and without adapters to decide none/mask/lowercase exactly, retain/crop "
+    "against --info-file coordinates; PairedAdapterCutter is checked for every action against interval arithmetic.",
+    "Held on everything explored after repository fixes F1 and F10. Amount removed by non-adapter stages is C10/C13's subject.",
+    "DESIGN.md section 4, C03",
+)
+
 NOT_APPLICABLE = []  # filled below for every property without a check
 
 ALL_IDS = [f"C{i:02d}" for i in range(1, 21)]
